@@ -70,7 +70,7 @@ class Catalog:
 
 
 # ---- site kinds: name -> (builder(msg, nl) -> (kind, text), where kind 'tag' = stands alone, 'expr' = an expression)
-COUNTS = ["0", "1", "2", "cnt", None]
+COUNTS = ["0", "1", "2", "cnt", None, "nil", "'many'"]
 
 
 def tag_sites(m: str, nl: str) -> list[tuple[str, str]]:
@@ -289,6 +289,9 @@ DATA = [
     {"g": 1, "h": False, "cnt": 1},
     {"g": 0, "h": False, "cnt": 2},
     {"g": 1, "h": False},
+    {"g": 1, "h": True, "cnt": None},
+    {"g": 0, "h": True, "cnt": "many"},
+    {"g": 1, "h": False, "cnt": 2.5},
 ]
 
 
@@ -315,6 +318,14 @@ def _programs(tier: str) -> list[tuple[list[tuple[str, str]], dict[str, str]]]:
         for ck, ctext in COMMENT_KINDS:
             for gap in ("", "\n", "\n\n"):
                 progs.append(([("text", "x\n"), ("comment:NOTE1", ctext.replace("NOTE", "NOTE1")), ("text", gap), ("site:M1", src)], parts))
+    # ONE expression with two sites (both branches of an inline condition), with and without a comment before it
+    for f1, f2 in itertools.product(("t", "gettext", "t: 'ctxM1'", "ngettext: 'M1s', 2"), ("t", "gettext", "pgettext: 'ctxM2'")):
+        for opener, closer in (("{{ ", " }}"), ("{% echo ", " %}"), ("{% assign zz = ", " %}")):
+            two = [("site:M1", opener + "'M1' | " + f1 + " if g else "), ("site:M2", "'M2' | " + f2 + closer)]
+            progs.append((two, {}))
+            for ck, ctext in COMMENT_KINDS:
+                for gap in ("", "\n"):
+                    progs.append(([("text", "x\n"), ("comment:NOTE1", ctext.replace("NOTE", "NOTE1")), ("text", gap), *two, ("text", "\n"), ("site:M3", "{{ 'M3' | t }}")], {}))
     # two sites (reduced kinds) with a comment before, between or none
     sm2 = site_markups("M2", tier)
     red1 = [x for x in sm1 if x[0] in ("tr", "tr-plural-2", "tr-ctx", "t@output", "t-plural-1@output", "gettext@echo", "npgettext-2@assign", "t@ternary-alt", "t@tstr", "tr@partial", "t@partial", "t-ctx@liquid")]
